@@ -70,7 +70,7 @@ pub async fn semantic_tokens(
             line: 0,
             character: 0,
         };
-        let semantic_tokens: Vec<SemanticToken> = ast
+        let mut semantic_tokens: Vec<SemanticToken> = ast
             .global_declarations
             .iter()
             .flat_map(|gd| {
@@ -85,6 +85,22 @@ pub async fn semantic_tokens(
                 }
             })
             .collect();
+        // the comments behind the last declaration belong to no declaration
+        let rest_start = ast.global_declarations.last().map_or(0, |gd| {
+            use GlobalDeclaration::*;
+            let end = match gd.as_ref() {
+                Procedure(pd) => pd.info.range.end,
+                Type(td) => td.info.range.end,
+                Error(info) => info.range.end,
+            };
+            gd.offset + end
+        });
+        for token in tokens.iter().skip(rest_start) {
+            if let Some(semantic_token) = map_token(token, previous_token_pos, &text) {
+                previous_token_pos = as_position(token.range.start, &text);
+                semantic_tokens.push(semantic_token);
+            }
+        }
         Ok(Some(SemanticTokens {
             result_id: None,
             data: semantic_tokens,
